@@ -448,6 +448,14 @@ func dependsOn(v ssa.Value, pred func(ssa.Value) bool) bool {
 				return false
 			}
 		}
+		if ph, ok := v.(*ssa.Phi); ok {
+			// control dependence on the branches that select among the incoming edges
+			for _, pred := range ph.Block().Preds {
+				if ifi, ok := pred.Instrs[len(pred.Instrs)-1].(*ssa.If); ok && walk(ifi.Cond, depth+1) {
+					return true
+				}
+			}
+		}
 		if instr, ok := v.(ssa.Instruction); ok {
 			for _, op := range instr.Operands(nil) {
 				if *op != nil && walk(*op, depth+1) {
@@ -525,4 +533,66 @@ func instrReaches(a, b ssa.Instruction) bool {
 		return true
 	}
 	return reachable(a.Block(), b.Block(), nil)
+}
+
+// ---- must-hold lockset (DESIGN.md A.5) -------------------------------------------------------
+
+// heldAt computes, for every instruction of fn, whether the lock identified by isLock/isUnlock is
+// held on every path reaching it. A deferred unlock keeps the lock held up to the exits.
+func heldAt(fn *ssa.Function, isLock, isUnlock func(ssa.CallInstruction) bool) map[ssa.Instruction]bool {
+	in := map[*ssa.BasicBlock]bool{}
+	out := map[*ssa.BasicBlock]bool{}
+	for _, b := range fn.Blocks {
+		in[b], out[b] = true, true // optimistic start for a must-analysis
+	}
+	if len(fn.Blocks) == 0 {
+		return nil
+	}
+	transfer := func(b *ssa.BasicBlock, st bool, rec map[ssa.Instruction]bool) bool {
+		for _, instr := range b.Instrs {
+			if rec != nil {
+				rec[instr] = st
+			}
+			if ci, ok := instr.(ssa.CallInstruction); ok {
+				if _, isDefer := instr.(*ssa.Defer); isDefer {
+					continue
+				}
+				if _, isGo := instr.(*ssa.Go); isGo {
+					continue
+				}
+				if isLock(ci) {
+					st = true
+				} else if isUnlock(ci) {
+					st = false
+				}
+			}
+		}
+		return st
+	}
+	for changed := true; changed; {
+		changed = false
+		for _, b := range fn.Blocks {
+			st := true
+			if b == fn.Blocks[0] {
+				st = false
+			} else {
+				for _, p := range b.Preds {
+					st = st && out[p]
+				}
+				if len(b.Preds) == 0 {
+					st = false
+				}
+			}
+			o := transfer(b, st, nil)
+			if st != in[b] || o != out[b] {
+				in[b], out[b] = st, o
+				changed = true
+			}
+		}
+	}
+	rec := map[ssa.Instruction]bool{}
+	for _, b := range fn.Blocks {
+		transfer(b, in[b], rec)
+	}
+	return rec
 }
